@@ -147,7 +147,7 @@ def cached_waiter_histories(ctx):
 
 
 def run(ctx):
-    n = 300 if ctx.tier == "quick" else 9000
+    n = 700 if ctx.tier == "quick" else 9000
     if ctx.replay:
         c = ctx.replay["case"]
         one(ctx, c["spec"], c["inputs"], c["runner"], "replay", deterministic=False)
